@@ -195,8 +195,17 @@ Proof.
       { rewrite Hall in Hx. apply in_app_or in Hx as [Hx|[<-|Hx]]; [exact Hx| |].
         - rewrite bytes_ltb_irrefl in Elt. discriminate.
         - rewrite (bytes_ltb_asym _ _ (Hgt x Hx)) in Elt. discriminate. }
-      assert (has_rev revs (f_version x) = true) as ->; [|rewrite andb_false_r; reflexivity].
-      apply has_rev_In. rewrite Hsn, map_app, Hmrl. apply in_or_app. left. apply in_map. exact HxA. }
+      assert (done_rev revs (f_version x) = true) as ->; [|rewrite andb_false_r; reflexivity].
+      apply In_nth_error in HxA as [i Hi].
+      assert (i < length A) as Hil by (apply nth_error_Some; congruence).
+      destruct (nth_error_some_lt rl i ltac:(lia)) as [r Hr].
+      assert (r_version r = f_version x) as Evx.
+      { assert (nth_error (map (@r_version hash) rl) i = nth_error (map f_version A) i) as X by (rewrite Hmrl; reflexivity).
+        rewrite !nth_error_map, Hr, Hi in X. simpl in X. congruence. }
+      assert (nth_error revs i = Some r) as Hri.
+      { rewrite Hsn. rewrite nth_error_app1 by lia. exact Hr. }
+      apply done_rev_In. exists r. split; [eapply nth_error_In; exact Hri|]. split; [exact Evx|].
+      apply (Hcomp i r); [unfold m in *; destruct p; lia|exact Hri]. }
   assert (newer (f_version fm) (pre ++ all) = B) as ->.
   { unfold newer. rewrite Hall. replace (pre ++ A ++ fm :: B) with (((pre ++ A) ++ [fm]) ++ B)
       by (rewrite <- !app_assoc; reflexivity).
